@@ -4,7 +4,7 @@
      k<hex> cmp      e<hex> eq       l len           s c_str       h hash
      y  replace the String by a copy of itself (assign into a fresh object), delete the original
      A C P R M K E   assign / concat / append / rem / mem / cmp / eq with the String itself as argument
-     f<pos>:<piece>,<piece>,...  print_to at pos; piece = L<hex> literal | S<hex> %s | D<int> %li
+     f<pos>:<piece>,<piece>,...  print_to at pos; piece = L<hex> literal | S<hex> %s | D<int> %li | X %s with the String itself
    argv[1] = model | spec ; one line per case, steps separated by " | ", first step = "new":
      model:  <out>;<chars-hex>;<alloc>;<cells>      cells: two hex digits per byte, ?? = indeterminate
      spec:   <out>;<chars-hex>
@@ -29,6 +29,7 @@ let parse_piece s =
   | 'L' -> PLit (bytes_of_hex (rest s))
   | 'S' -> PStr (bytes_of_hex (rest s))
   | 'D' -> PInt (z_of_dec (rest s))
+  | 'X' -> PSelf
   | _ -> failwith ("bad piece " ^ s)
 let parse_op s : sop =
   let r = rest s in
